@@ -511,3 +511,74 @@ Theorem C08_htpasswd_stored_before_parse_refuted :
                  g_htcache g1' = []).
 Proof. exact early_cache_refuted. Qed.
 Print Assumptions C08_htpasswd_stored_before_parse_refuted.
+
+(* ---- attempts that OVERLAP in time ----
+   casket.instances while an attempt B is held inside the setup of its directives (its instance is listed from the
+   moment startWithListenerFds begins) and other attempts run to their end.  FRAME: for every list of running
+   instances, every sequence of attempts completing meanwhile (loads; reloads, which append the new instance and
+   splice the old one out IN FRONT of B's entry; refused reloads; stops) that do not name B, when B is then refused -
+   at a directive, at Listen, in a startup callback - the list is exactly what those attempts alone make of it:
+   every instance they left running is listed in the same order and B is not.  The harness holds the real
+   casket.Start / Instance.Restart / Instance.Stop against ov_lists at four points of every overlap case, and
+   the observations against ov_spec (every listed instance serves its own configuration; casket.Stop() then stops
+   every site and leaves no listening socket). *)
+Theorem C08_overlap_refused_attempt_is_frame :
+  forall l b bid inner,
+  ~ In bid l -> (forall o, In o inner -> ~ In bid (ov_names o)) ->
+  ov_end (ov_steps (ov_begin l bid) inner) b bid false = ov_steps l inner.
+Proof. exact overlap_refused_is_frame. Qed.
+Print Assumptions C08_overlap_refused_attempt_is_frame.
+
+Theorem C08_overlap_refused_attempt_keeps_running_instances :
+  forall l b bid inner x,
+  ~ In bid l -> (forall o, In o inner -> ~ In bid (ov_names o)) ->
+  (In x (ov_end (ov_steps (ov_begin l bid) inner) b bid false) <-> In x (ov_steps l inner)) /\
+  ~ In bid (ov_end (ov_steps (ov_begin l bid) inner) b bid false).
+Proof. exact overlap_refused_keeps_running. Qed.
+Print Assumptions C08_overlap_refused_attempt_keeps_running_instances.
+
+Example C08_overlap_refused_attempt_is_frame_nonvacuous :
+  let inner := [(OvReload 1 3, 0); (OvLoad 4, 0); (OvReloadBad 4 5, 1); (OvStop 4, 0)] in
+  ~ In 2 [1] /\ (forall o, In o inner -> ~ In 2 (ov_names o)) /\
+  ov_steps (ov_begin [1] 2) inner = [2; 3] /\ ov_end (ov_steps (ov_begin [1] 2) inner) OvBLoad 2 false = [3].
+Proof.
+  cbv zeta. split; [|split; [|split]].
+  - intros [E|[]]; discriminate.
+  - intros o [<-|[<-|[<-|[<-|[]]]]]; cbn; intuition discriminate.
+  - vm_compute. reflexivity.
+  - vm_compute. reflexivity.
+Qed.
+
+(* The clean-up that remembers the POSITION at which B's instance was appended (seeded C08-m9) is the same function
+   on every sequential history ... *)
+Theorem C08_overlap_slot_cleanup_sequential_partial :
+  forall l bid, ~ In bid l ->
+  ov_end_slot (ov_begin l bid) (length l) = ov_end (ov_begin l bid) OvBLoad bid false.
+Proof. exact overlap_slot_same_when_sequential. Qed.
+Print Assumptions C08_overlap_slot_cleanup_sequential_partial.
+
+(* ... and drops the RUNNING instance, keeping the refused one, as soon as a reload completes while B is held *)
+Theorem C08_overlap_slot_cleanup_refuted :
+  exists l bid inner,
+    ~ In bid l /\ (forall o, In o inner -> ~ In bid (ov_names o)) /\
+    let l3 := ov_steps (ov_begin l bid) inner in
+    ov_steps l inner = [3] /\ ov_end_slot l3 (length l) = [bid] /\
+    ov_end l3 OvBLoad bid false = [3].
+Proof. exact overlap_slot_refuted. Qed.
+Print Assumptions C08_overlap_slot_cleanup_refuted.
+
+(* The event hooks along an overlap case (finding F-C08-7).  startWithListenerFds / ValidateAndExecuteDirectives
+   copy the registry when an attempt begins and put the COPY back when it is refused.  Sequentially that is the
+   frame clause; with another load or reload completing in between, the hooks that one registered are wiped by the
+   refusal of B: "a failed attempt leaves the registered event hooks as they were" is false of the model (and of
+   the code: Sig overlap:hooks-registered-meanwhile-lost), and true when nothing registers a hook meanwhile. *)
+Theorem C08_overlap_refused_attempt_keeps_hooks_partial :
+  forall h inner, (forall o, In o inner -> snd o = 0) ->
+  ov_hooks_end h (ov_hooks_steps h inner) false = ov_hooks_steps h inner.
+Proof. exact overlap_hooks_partial. Qed.
+Print Assumptions C08_overlap_refused_attempt_keeps_hooks_partial.
+
+Theorem C08_overlap_refused_attempt_keeps_hooks_refuted :
+  exists h inner, ov_hooks_steps h inner = 3 /\ ov_hooks_end h (ov_hooks_steps h inner) false = 1.
+Proof. exact overlap_hooks_refuted. Qed.
+Print Assumptions C08_overlap_refused_attempt_keeps_hooks_refuted.
